@@ -11,7 +11,7 @@
                  linecache.cache; show_func refreshes only the reported file's entry with
                  linecache.checkcache(filename) - since /repo 6c987c9 - so the lookup of one
                  function does not depend on which functions were reported before it)
-     formatter = the four number-to-text conversions (instantiated in Cells.v by
+     formatter = the four number-to-text conversions and the stream's `encodable` test (instantiated in Cells.v by
                  `py_formatter unit output_unit`; every structural theorem holds for any formatter)
      show_func F env strip key timings : option block
      show_text F env opts stats        : report
@@ -42,7 +42,9 @@ Record formatter := mkFmt {
   f_unit_text : string;            (* '%g' % (output_unit if output_unit is not None else unit) *)
   f_total : Z -> string;           (* '%g' % (total_time * unit) *)
   f_cells : Z -> timing -> cells;  (* total_time -> one timing -> its display tuple *)
-  f_summary : Z -> string          (* '%6.2f' % (total_time * unit) *)
+  f_summary : Z -> string;         (* '%6.2f' % (total_time * unit) *)
+  f_encodable : string -> bool     (* can the stream's (strict) encoding encode this text?  io.StringIO and
+                                      UTF-8 streams: always; an ascii / latin-1 stdout: not every source line *)
 }.
 
 (* sum(...) over a list of ints *)
@@ -133,10 +135,18 @@ Definition block_lines (src : source) (start : Z) (tm : list timing) : list stri
       repeat EmptyString (Z.to_nat nlines)
   end.
 
-Definition mk_row (d : dict) (lineno : Z) (line : string) : row :=
+(* what the row shows when stream.write(row) raises UnicodeEncodeError *)
+Definition encode_fallback : string := "UnicodeEncodeError - help wanted for a fix".
+
+(* the cells are ASCII, so the row is encodable iff the source text is *)
+Definition shown_text (F : formatter) (line : string) : string :=
+  let t := rstrip_char cr (rstrip_char nl line) in
+  if f_encodable F t then t else encode_fallback.
+
+Definition mk_row (F : formatter) (d : dict) (lineno : Z) (line : string) : row :=
   mkRow lineno
         (match dget d lineno with Some c => c | None => empty_cells end)
-        (rstrip_char cr (rstrip_char nl line)).
+        (shown_text F line).
 
 Definition show_func (F : formatter) (E : env) (strip : bool) (k : key) (tm : list timing)
   : option block :=
@@ -150,7 +160,7 @@ Definition show_func (F : formatter) (E : env) (strip : bool) (k : key) (tm : li
   let wh := zmax_list 9 (map (fun kv => slen (c_hits (snd kv))) d) in
   let wt := zmax_list 12 (map (fun kv => slen (c_time (snd kv))) d) in
   let wp := zmax_list 8 (map (fun kv => slen (c_perhit (snd kv))) d) in
-  let rows := map (fun p => mk_row d (fst p) (snd p)) (combine (zrange start (length sub)) sub) in
+  let rows := map (fun p => mk_row F d (fst p) (snd p)) (combine (zrange start (length sub)) sub) in
   Some (mkBlock k (f_total F tt) (match src with Missing => false | _ => true end)
                 wh wt wp rows).
 
